@@ -86,6 +86,8 @@ type state struct {
 
 var s state
 
+var timerTrace = os.Getenv("VERIF_TIMER_TRACE")
+
 // T0 is the wall-clock value of virtual time zero.
 var T0 = time.Date(2026, 1, 1, 0, 0, 0, 0, time.UTC)
 
@@ -195,6 +197,22 @@ func EndSetup() {
 	}
 }
 
+// Sync runs f on the calling (explorer) goroutine in the synchronous phase: seam
+// points pass through and sleeps elapse at once. Used by oracles that must
+// drive the real client after an execution has ended (forced lock resolution).
+func Sync(f func()) {
+	s.mu.Lock()
+	was := s.setup
+	s.setup = true
+	s.mu.Unlock()
+	defer func() {
+		s.mu.Lock()
+		s.setup = was
+		s.mu.Unlock()
+	}()
+	f()
+}
+
 func goDriver(name string, f func()) {
 	go func() {
 		defer func() {
@@ -256,6 +274,22 @@ func AddTimer(d time.Duration, period time.Duration, label string, fire func(now
 		d = 0
 	}
 	t := &Timer{id: s.timerID, Deadline: s.now + int64(d), Period: int64(period), fire: fire, Label: label}
+	if timerTrace != "" && label == timerTrace && !s.setup {
+		buf := make([]byte, 4096)
+		buf = buf[:runtime.Stack(buf, false)]
+		fmt.Fprintf(os.Stderr, "TIMER %s created at virtual %d:\n%s\n", label, s.now, buf)
+	}
+	if s.setup && period == 0 {
+		// synchronous phase (Setup / Check run by the explorer goroutine itself): nobody would fire
+		// the timer, so a sleep elapses at once and the clock moves on
+		s.now = t.Deadline
+		t.stopped = true
+		now := s.now
+		s.mu.Unlock()
+		fire(now)
+		s.mu.Lock()
+		return t
+	}
 	s.timers = append(s.timers, t)
 	return t
 }
@@ -412,13 +446,21 @@ func Close() {
 	for _, ch := range pk {
 		close(ch)
 	}
-	for i := 0; i < 50; i++ {
-		runtime.Gosched()
-	}
-	s.mu.Lock()
-	s.active = false
-	s.mu.Unlock()
+	// closing stays set until the next Reset: goroutines left over from this execution must
+	// never register events or timers in the next one (see Closing)
 }
+
+// Closing reports whether the last execution is being / has been torn down. Shims then make
+// every sleep and timer elapse at once so that leftover goroutines run into their cancelled
+// contexts / error returns and finish quickly instead of waking up inside the next execution.
+func Closing() bool {
+	s.mu.Lock()
+	defer s.mu.Unlock()
+	return s.closing
+}
+
+// Drain waits until the leftover goroutines of a torn-down execution have stopped running.
+func Drain() bool { return Quiesce() }
 
 // snapshot returns the pending events in canonical order (by arrival window,
 // then label, then arrival) and the timers sorted by (deadline, id).
